@@ -7,6 +7,10 @@ import sys
 import time
 
 
+class Runaway(BaseException):
+    pass
+
+
 def run_case(case):
     from whenever import Instant, TimeDelta
     from eascheduler.builder.jobs import JobBuilder
@@ -33,8 +37,13 @@ def run_case(case):
 
                 def fn():
                     job = cell['job']
+                    if len(log) > 400:
+                        raise Runaway()          # far more executions than occurrences: a runaway re-execution
                     log.append([clock.ns, job.next_run.timestamp_nanos() if job.next_run is not None else None])
 
+                if case.get('other_first'):
+                    # another job is already queued (and the timer armed for it) when the recurring job is created
+                    far = builder.once(Instant.from_timestamp_nanos(case['t0'] + case['other_first']), lambda: others.append(clock.ns))
                 ctrl = builder.at(TriggerObject(prod_impl.build(case['expr'])), fn)
                 cell['job'] = ctrl._job
                 out['first'] = ctrl._job.next_run.timestamp_nanos()
@@ -49,7 +58,7 @@ def run_case(case):
                         c2 = builder.countdown(TimeDelta(nanoseconds=max(10**6, gap // 3 // 10**6 * 10**6)), lambda: others.append(clock.ns))
                         c2.reset()
                         other_ctrls += [c1, c2]
-                        if k % 6 == 0:
+                        if k % 6 == 0 and c1.status.value != 'finished':
                             c1.cancel()
                     if case.get('pre') and nr - clock.ns > 2_000_000:
                         # a wake-up shortly before the occurrence must not start the job
@@ -81,6 +90,8 @@ def run_case(case):
             finally:
                 asyncio.set_event_loop(None)
             out['others'] = len(others)
+    except Runaway:
+        out['error'] = 'Runaway: the job was executed hundreds of times within a few occurrences'
     except Exception as e:  # noqa: BLE001
         out['error'] = f'{type(e).__name__}: {e}'
     finally:
